@@ -35,6 +35,9 @@ def configs(tier):
              over=dict(Kinds=["sock"], NT=2, MaxTick=2, MaxPosts=2, TickUs=2000,
                        Cmds={"read", "close", "tonce", "trep", "tcancel", "tclose", "post"}, Envs={"send", "tick"},
                        MaxCmds=mc - 1)),
+        dict(name="gen: a sock handler cancels and re-arms a timer whose expiration sits in the same batch (stale event), then cancel/close", sample=n,
+             over=dict(Kinds=["sock"], NT=1, MaxTick=3, TickUs=2000, Cmds={"read", "tonce", "tcancel", "tclose"},
+                       Envs={"send", "tick"}, MaxCmds=8, MaxOps=1, HBudget=2)),
         dict(name="gen: listener + packet conn: accept / readfrom / writeto / close", sample=n // 2,
              over=dict(Kinds=["lst", "pkt"], Cmds={"read", "write", "close"}, Envs={"send"}, MaxCmds=mc, MaxData=2)),
         dict(name="gen: multicast peer + AsyncAdapter: read / write / cancel / close", sample=n // 2,
